@@ -1,5 +1,6 @@
 import QuantemModel.Core.Proto
 import QuantemModel.Model.DirectPtycho
+import QuantemModel.Model.DirectKernel
 open Lean QuantemModel QuantemModel.Proto QuantemModel.DirectPtycho
 
 namespace DrvC04
@@ -65,6 +66,15 @@ def optDict (j : Json) (k : String) : Except String (Option (Dict Float)) :=
   | .ok .null => pure none
   | .ok v => do pure (some (← dictOfJson v))
   | .error _ => pure none
+
+def kgeomOfJson (j : Json) : Except String (KGeom Float) := do
+  pure { wavelength := ← floatField j "wavelength", semiangle := ← floatField j "semiangle",
+         soft := (boolField j "soft").toOption.getD true, rs0 := ← floatField j "rs0", rs1 := ← floatField j "rs1",
+         detRows := ← natField j "det_rows", detCols := ← natField j "det_cols", rotation := ← floatField j "rotation",
+         coefs := ← dictOfJson (← field j "coefs"), scanRows := ← natField j "r", scanCols := ← natField j "c",
+         sx := ← floatField j "sx", sy := ← floatField j "sy", u := ← natField j "u",
+         qLow := ← optFloat j "ql", qHigh := ← optFloat j "qh", order := ← natField j "order",
+         eps := ← floatField j "eps", flip := (boolField j "flip").toOption.getD false }
 
 def stateToJson (st : HState Float Float) : Json :=
   Json.mkObj [("initial_ab", dictToJson st.initialAb), ("optimized_ab", dictToJson st.optimizedAb),
@@ -168,6 +178,57 @@ def step (st : Unit) (j : Json) : Unit × Json :=
         let qx ← floatsField j "qx"
         let qy ← floatsField j "qy"
         pure (okJson (cxImgToJson (icomOperator kx ky qx qy)))
+    | "kernel_full" =>
+        -- the kernel formulas translated from the source, mapped over mask pixels and the scan-frequency grid
+        let g ← kgeomOfJson j
+        let k ← kernelOfName (← strField j "kernel")
+        let pi ← natList (← field j "pix_i")
+        let pj ← natList (← field j "pix_j")
+        let which ← natList (← field j "which")
+        let pix := pi.zip pj
+        let parr := pix.toArray
+        let sign : Img Float := match k with
+          | .prlx => signImg g
+          | _ => ones ((g.u * g.scanRows) * (g.u * g.scanCols))
+        let Ks := which.map fun t => cxImgToJson (kernelFactor g k sign (parr.getD t (0, 0)))
+        let Ps := which.map fun t => floatsToJson (powerTerm g k (parr.getD t (0, 0)))
+        let pr := pix.map (probeAt g)
+        let gr := pix.map (gradAt g)
+        let kp := pix.map fun ij => kPoint g ij.1 ij.2
+        -- the aberration phase on the scan-frequency grid (conditioning of `sign(sin(chi_q))`), parallax only
+        let q := qImgs g
+        let chi : Img Float := match k with
+          | .prlx => List.zipWith (fun qx qy =>
+              let pc := QuantemModel.Generated.DirectKernel.polar_coordinates qx qy
+              QuantemModel.Generated.DirectKernel.aberration_surface (pc.1 * g.wavelength) pc.2 g.wavelength g.coefs) q.1 q.2
+          | _ => []
+        pure (okJson (Json.mkObj [
+          ("chi", floatsToJson chi),
+          ("W", floatToJson (bfWeights g pix)), ("weights", floatsToJson (pix.map (weightTerm g))),
+          ("env", floatsToJson (envImg g)), ("sign", floatsToJson sign),
+          ("probe", cxImgToJson pr), ("gx", floatsToJson (gr.map (·.1))), ("gy", floatsToJson (gr.map (·.2))),
+          ("kx", floatsToJson (kp.map (·.1))), ("ky", floatsToJson (kp.map (·.2))),
+          ("K", Json.arr Ks.toArray), ("P", Json.arr Ps.toArray)]))
+    | "reconstruct_full" =>
+        -- the whole reconstruction from (stack, mask pixels, hyper-parameters): no captured factor
+        let g ← kgeomOfJson j
+        let k ← kernelOfName (← strField j "kernel")
+        let pi ← natList (← field j "pix_i")
+        let pj ← natList (← field j "pix_j")
+        let mapping ← natList (← field j "mapping")
+        let stack ← (← arrField j "stack").toList.mapM floatList
+        let schedules ← schedulesOfJson (← field j "schedules")
+        let F : Fourier Float := Fourier.dft
+        let geo := geometryOf g k (pi.zip pj) mapping
+        let pb0 := problemOfStack F geo stack
+        let Garr := ((List.range pb0.n).map pb0.G).toArray
+        let pb : Problem Float := { pb0 with G := fun i => Garr.getD i [] }
+        let outs := schedules.map fun sch =>
+          let stk := reconstruct F k pb sch
+          Json.mkObj [("stack", Json.arr (stk.map fun o => match o with
+                          | some x => floatsToJson x | none => Json.null).toArray),
+                      ("bf", floatsToJson (correctedBf (pb.rows * pb.cols) stk))]
+        pure (okJson (Json.mkObj [("runs", Json.arr outs.toArray), ("W", floatToJson geo.W)]))
     | "prlx_closed" =>
         let g ← geomOfJson j
         let W ← floatField j "W"
